@@ -27,7 +27,9 @@ LG == Loc(M0, 4, <<Ln(G, 20, 0)>>, FALSE)
 H  == Fn("h", "h", "b.c", 0)
 LH == Loc(M0, 5, <<Ln(H, 30, 0)>>, FALSE)
 \* 4..6: location tables of three, one and two entries that give the same ids to different functions
-Stk == << <<LF>>, <<LG, LF>>, <<LG>>, <<LH, LG, LF>>, <<LH>>, <<LG, LH>> >>
+F2 == Fn("f", "f", "b.c", 0)      \* another function called f, in another file (7: only a file-sensitive view tells them apart)
+LF2 == Loc(M0, 6, <<Ln(F2, 10, 0)>>, FALSE)
+Stk == << <<LF>>, <<LG, LF>>, <<LG>>, <<LH, LG, LF>>, <<LH>>, <<LG, LH>>, <<LF2>>, <<LG, LF2>> >>
 
 Factor(u) == CASE u = "us" -> 1 [] u = "ms" -> 1000 [] u = "milliseconds" -> 1000 [] u = "s" -> 1000000 [] u = "B" -> 1 [] u = "bytes" -> 1 [] u = "kB" -> 1024 [] OTHER -> 1
 VT(t, u) == [t |-> t, u |-> u]
@@ -80,6 +82,9 @@ Cases(d) ==
              o \in {x \in [1..3 -> 1..3] : \A i, j \in 1..3 : x[i] = x[j] => i = j},
              q \in { <<P(1, <<S2(4, <<1, 3>>)>>), P(1, <<S2(sm, <<5, 0>>)>>), P(1, <<S2(md, <<2, 2>>)>>)>> : sm \in {1, 5}, md \in {2, 6} } }
     \cup { [srcs |-> <<P(1, <<S2(4, <<1, 3>>)>>), P(1, <<S2(5, <<5, 0>>)>>)>>, bases |-> <<P(1, <<S2(6, <<2, 2>>)>>)>>, mode |-> m, norm |-> FALSE] : m \in {"base", "diff_base"} }
+    \* homonymous functions of different files across the inputs
+    \cup { [srcs |-> <<P(1, <<S2(1, <<1, 3>>), S2(2, <<2, 2>>)>>), P(1, <<S2(7, <<5, 1>>)>>)>>, bases |-> <<>>, mode |-> "plain", norm |-> FALSE] }
+    \cup { [srcs |-> <<P(1, <<S2(1, <<1, 3>>)>>)>>, bases |-> <<P(1, <<S2(k, <<5, 1>>)>>)>>, mode |-> m, norm |-> FALSE] : k \in {7, 8}, m \in {"base", "diff_base"} }
     \cup (IF Tier = "thorough"
           THEN { [srcs |-> <<a, b, c>>, bases |-> <<e>>, mode |-> m, norm |-> FALSE] :
                    a \in Profs(1), b \in Profs(2), c \in Profs(3) \cup Profs(5), e \in Profs(4), m \in {"base", "diff_base"} }
@@ -125,6 +130,9 @@ CombinedD(c) == MergeSeq(AllD(c), NC(c))
 RCfg(si) == [gran |-> "functions", noinl |-> FALSE, si |-> si, mean |-> FALSE, troot |-> <<>>, tleaf |-> <<>>]
 \* rows of the report of column si: name -> flat, cum  (the base label is not an entry attribute)
 RowsD(c, si) == { [name |-> r.e.name, flat |-> r.rawflat, cum |-> r.rawcum] : r \in NodeTableD(CombinedD(c), RCfg(si)) }
+\* the same at a granularity that keeps the file: entries are (function, file)
+RCfgF(si) == [gran |-> "filefunctions", noinl |-> FALSE, si |-> si, mean |-> FALSE, troot |-> <<>>, tleaf |-> <<>>]
+RowsDF(c, si) == { [name |-> r.e.name \o " " \o r.e.file, flat |-> r.rawflat, cum |-> r.rawcum] : r \in NodeTableD(CombinedD(c), RCfgF(si)) }
 IsBase(s) == \E i \in DOMAIN s.lab : s.lab[i].k = "pprof::base"
 TotalOf(c, si) ==
   LET m == CombinedD(c)
@@ -178,7 +186,7 @@ MixedZero(c) == \E j \in DOMAIN AllProfs(c) : \E i \in DOMAIN AllProfs(c)[j].sam
 Class(c) == IF Rescaled(c) /\ MixedZero(c) THEN "zero-beside-nonzero-rescaled" ELSE "plain"
 Expected ==
   [ cls |-> Class(case), cols  |-> [k \in 1..NC(case) |-> [t |-> Common(case)[k], u |-> FinestUnit(case, Common(case)[k]),
-                                      rows |-> RowsD(case, k), total |-> TotalOf(case, k)]],
+                                      rows |-> RowsD(case, k), frows |-> RowsDF(case, k), total |-> TotalOf(case, k)]],
     empty |-> CombinedD(case) = <<>> ]
 Finish ==
   /\ pc = "done" /\ pc' = "end"
